@@ -686,10 +686,14 @@ class AnnotateResidues(Processor):
         #   repeated for each residue.
         # The case were there is no molecule in the selection is only valid if
         # the sequence is empty. Then we are in the first valid scenario.
-        molecule_lengths = [
-            len(list(molecule.iter_residues()))
+        selected_molecules = [
+            molecule
             for molecule in system.molecules
             if self.molecule_selector(molecule)
+        ]
+        molecule_lengths = [
+            len(list(molecule.iter_residues()))
+            for molecule in selected_molecules
         ]
         if self.sequence and not molecule_lengths:
             raise ValueError('There is no molecule to which '
@@ -711,7 +715,7 @@ class AnnotateResidues(Processor):
 
         end = 0
         begin = 0
-        for molecule, nres in zip(system.molecules, molecule_lengths):
+        for molecule, nres in zip(selected_molecules, molecule_lengths):
             end += nres
             annotate_residues_from_sequence(
                 molecule,
